@@ -67,16 +67,19 @@ def gen_packet(rng, malformed):
     return p
 
 
-def in_range(p):
+def fields_in_range(p):
+    """every field within its width (the documented layout is defined: present arguments in order)"""
     if any(p[f] >= WIDTH[f] for f in SDP_FIELDS):
         return False
     if p["cmd_rc"] >= 65536 or p["seq"] >= 65536:
         return False
-    a = [p["arg1"], p["arg2"], p["arg3"]]
-    if any(x is not None and x >= 2 ** 32 for x in a):
-        return False
-    present = [x is not None for x in a]
-    return present == sorted(present, reverse=True)
+    return not any(x is not None and x >= 2 ** 32 for x in (p["arg1"], p["arg2"], p["arg3"]))
+
+
+def in_range(p):
+    """... and the present arguments are a prefix of (arg1, arg2, arg3): decoding can give the packet back"""
+    present = [p[a] is not None for a in ("arg1", "arg2", "arg3")]
+    return fields_in_range(p) and present == sorted(present, reverse=True)
 
 
 def impl_encode(kind, p, reuse_from=None, how=None):
@@ -177,7 +180,7 @@ def eval_cases(ctx, cases):
             failed = {"proto": c["proto"], "pkt": c["pkt"]} if "err" in c["impl"] else None
             reqs.append(dict(c["pkt"], suite="c15", op="enc_" + c["proto"]))
             idx.append((c, "model"))
-            if in_range(c["pkt"]):
+            if fields_in_range(c["pkt"]):
                 reqs.append(dict(c["pkt"], suite="c15", op="layout_" + c["proto"]))
                 idx.append((c, "layout"))
         else:
@@ -196,7 +199,14 @@ def eval_cases(ctx, cases):
         if c["kind"] == "enc":
             p = c["pkt"]
             ok = in_range(p)
-            ctx.tag("enc_%s_%s" % (c["proto"], "inrange" if ok else "malformed"))
+            gap = fields_in_range(p) and not ok
+            ctx.tag("enc_%s_%s" % (c["proto"], "inrange" if ok else "argument_gap" if gap else "malformed"))
+            if gap and (c["proto"] == "sdp" or c["impl"].get("ok") != c["layout"]):
+                # present arguments that are not a prefix: the layout is still documented (the present arguments,
+                # in order); only the round trip is not claimed.  (An SDP packet has no arguments: never a gap.)
+                if c["proto"] == "scp":
+                    ctx.violation("layout-scp", "encoded bytes differ from the documented layout (present arguments in "
+                                  "order): impl=%r spec=%r" % (c["impl"], c["layout"]), desc)
             if ok:
                 nontriv = c["proto"] == "scp" and p["arg1"] is not None
                 # oracle 1: documented layout (Lean spec) == implementation bytes
